@@ -826,8 +826,15 @@ class G:
   def flow_stmt(self, env):
     """Conditional mutation of a container / attribute followed by a read:
     the read must keep every value that can be there."""
-    kind = self.pick(["dict-store", "dict-in", "attr-store", "list-mutate",
-                      "list-insert", "dict-del", "set-add", "nested-store"])
+    # "dict-in" and "attr-store" reproduce two recorded C01 findings whose
+    # wrong type then poisons later branches of the same program; they are
+    # excluded here by construction (Cfg.known_flow re-enables them) and stay
+    # covered by the recorded inputs in known_findings.json.
+    kinds = ["dict-store", "list-mutate", "list-insert", "dict-del", "set-add",
+             "nested-store"]
+    if getattr(self.cfg, "known_flow", False):
+      kinds += ["dict-in", "attr-store"]
+    kind = self.pick(kinds)
     self.features.add("flow:" + kind)
     v = self.fresh("v")
     k1, k2 = self.some_kind(0, False), self.some_kind(0, False)
@@ -883,6 +890,31 @@ class G:
     return ["%s = {'o': {'i': %s}}" % (d, e1), "if %s:" % c,
             "  %s['o']['i'] = %s" % (d, e2), "%s = %s['o']['i']" % (v, d)]
 
+  def diamond_stmt(self, env):
+    """A diamond with cooperative super() calls: what super() reaches depends
+    on the instance's class, not on the class the method is written in."""
+    self.features.add("diamond-super")
+    b, l, r, d = (self.fresh("B"), self.fresh("L"), self.fresh("R"),
+                  self.fresh("D"))
+    k1, k2 = self.some_kind(0, False), self.some_kind(0, False)
+    e1, e2 = self.expr({}, k1, 1), self.expr({}, k2, 1)
+    v1, v2, v3, v4 = (self.fresh("v"), self.fresh("v"), self.fresh("v"),
+                      self.fresh("v"))
+    for v in (v1, v2, v3, v4):
+      env[v] = ("union", k1, k2)
+    order = self.pick(["%s, %s" % (l, r), "%s, %s" % (r, l)])
+    return ["class %s:" % b, "  def __init__(self):", "    self.tag = %s" % e1,
+            "  def describe(self):", "    return %s" % e1,
+            "class %s(%s):" % (l, b), "  def __init__(self):",
+            "    super().__init__()", "  def describe(self):",
+            "    return super().describe()",
+            "class %s(%s):" % (r, b), "  def __init__(self):",
+            "    self.tag = %s" % e2, "  def describe(self):",
+            "    return %s" % e2,
+            "class %s(%s):" % (d, order), "  pass",
+            "%s = %s().describe()" % (v1, d), "%s = %s().tag" % (v2, d),
+            "%s = %s().describe()" % (v3, l), "%s = %s().tag" % (v4, l)]
+
   def lambda_stmt(self, env):
     self.features.add("lambda")
     ln = self.fresh("lam")
@@ -892,6 +924,22 @@ class G:
     arg = self.expr(env, "int", 1)
     env[vn] = k
     return ["%s = lambda q: %s" % (ln, body), "%s = %s(%s)" % (vn, ln, arg)]
+
+  def module_name(self, module, alias):
+    """Imports `module` (once per program: plainly or under `alias`) and
+    returns the name it is known by."""
+    known = getattr(self, "_module_names", None)
+    if known is None:
+      known = self._module_names = {}
+    if module not in known:
+      if self.chance(35):
+        self.features.add("aliased-import")
+        self.imports.add("import %s as %s" % (module, alias))
+        known[module] = alias
+      else:
+        self.imports.add("import %s" % module)
+        known[module] = module
+    return known[module]
 
   # ---- extended fragment (C15/C16/C04/C05)
   def extended_stmt(self, env):
@@ -908,7 +956,12 @@ class G:
     if cfg.finally_:
       opts += ["try-finally", "try-else", "try-as-if-finally",
                "try-return-finally", "try-multi"]
-    opts += ["nested-literal", "big-literal", "edge-index", "last-implicit"]
+    opts += ["nested-literal", "big-literal", "edge-index", "last-implicit",
+             "fstring", "odd-signature"]
+    if cfg.loops:
+      opts += ["fstring-loop"]
+    if cfg.match:
+      opts += ["match-map-value-key"]
     if cfg.nested:
       opts += ["enum", "namedtuple", "typeddict", "typeddict-functional",
                "collections"]
@@ -1052,7 +1105,7 @@ class G:
                                   for i in range(n))
       return ["%s = %s" % (v, body)]
     if o == "enum":
-      self.imports.add("import enum")
+      mod = self.module_name("enum", "en")
       e = self.fresh("E")
       env[v] = "int"
       members = self.draw(st.lists(st.sampled_from(
@@ -1062,6 +1115,7 @@ class G:
       if base != "enum.Enum":
         members = [m for m in members if m[-1].isdigit()] or ["A = 1"]
       first = members[0].split(" = ")[0]
+      base = base.replace("enum.", mod + ".")
       return (["class %s(%s):" % (e, base)] + ["  " + m for m in members] +
               ["  def describe(self):", "    return self.name",
                "%s = %s.%s" % (self.fresh("m"), e, first),
@@ -1090,13 +1144,13 @@ class G:
                         "{'class': int}", "{'x y': float, 'z': int}"])
       return ["%s = TypedDict('%s', %s)" % (n, n, keys), "%s = 1" % v]
     if o == "collections":
-      self.imports.add("import collections")
+      mod = self.module_name("collections", "coll")
       env[v] = "int"
       n = self.fresh("Pt")
-      return ["%s = collections.namedtuple('%s', ['x', 'y'])" % (n, n),
+      return ["%s = %s.namedtuple('%s', ['x', 'y'])" % (n, mod, n),
               "%s = %s(1, 2)" % (self.fresh("q"), n),
-              "%s = collections.OrderedDict()" % self.fresh("od"),
-              "%s = collections.defaultdict(list)" % self.fresh("dd"),
+              "%s = %s.OrderedDict()" % (self.fresh("od"), mod),
+              "%s = %s.defaultdict(list)" % (self.fresh("dd"), mod),
               "%s = %s(3, 4).x" % (v, n)]
     if o == "try-else":
       env[v] = ("union", "int", "str")
@@ -1149,6 +1203,50 @@ class G:
       return ["def %s():" % f, "  c_ = 0", "  def inc():",
               "    nonlocal c_", "    c_ += 1", "    return c_",
               "  return inc()", "%s = %s()" % (v, f)]
+    if o in ("fstring", "fstring-loop"):
+      env[v] = "str"
+      w = self.fresh("w")
+      fields = ["{%s}", "{%s!r}", "{%s!s:>5}", "{%s:>{W}}", "{%s!r:>{W}}",
+                "{%s!a:{W}.{W}}", "{%s=}", "{%s=!r:^{W}}", "{{%s}}",
+                "{%s:{W}}{%s!r:<{W}}"]
+      parts = []
+      for _ in range(self.i(1, 3)):
+        f_ = self.pick(fields)
+        parts.append((f_ % (("q",) * f_.count("%s"))).replace("W", w))
+      lit = "f'" + " ".join(parts) + "'"
+      if o == "fstring":
+        return ["%s = 3" % w, "q = %s" % e(self.pick(["int", "str", "float"])),
+                "%s = %s" % (v, lit)]
+      return ["%s = 3" % w, "%s = ''" % v,
+              "for q in [%s, %s]:" % (e("int"), e("str")),
+              "  %s = %s" % (v, lit),
+              "  if q:", "    %s += %s" % (v, lit)]
+    if o == "odd-signature":
+      # methods whose first parameter is not a plain name
+      cn = self.fresh("O")
+      env[v] = "Any"
+      return ["class %s:" % cn, "  @classmethod",
+              "  def build(*args, **kwargs):", "    return args",
+              "  @classmethod", "  def none():", "    return 0",
+              "  @staticmethod", "  def st(*a):", "    return a",
+              "  def meth(*args):", "    return args",
+              "  @property", "  def prop(*a):", "    return a",
+              "%s = (%s.build(), %s().meth(), %s.st(1), %s().prop)" % (
+                  v, cn, cn, cn, cn),
+              "try:", "  %s = %s.none()" % (self.fresh("t"), cn),
+              "except TypeError:", "  pass"]
+    if o == "match-map-value-key":
+      cn = self.fresh("M")
+      env[v] = "Any"
+      return ["class %s:" % cn, "  A = str(3)", "  B = 'b'", "  C = 1",
+              "def %s_f(x):" % cn, "  match x:",
+              "    case {%s.A: a1}:" % cn, "      return a1",
+              "    case {%s.B: b1, %s.C: c1, **rest}:" % (cn, cn),
+              "      return (b1, c1, rest)",
+              "    case {'k': %s.A}:" % cn, "      return 0",
+              "    case %s.A | %s.B:" % (cn, cn), "      return 1",
+              "  return None",
+              "%s = %s_f({'3': 1})" % (v, cn)]
     if o == "walrus":
       env[v] = "int"
       return ["if (%s := %s) > 1:" % (v, e("int")),
@@ -1182,6 +1280,8 @@ class G:
       if self.cfg.functions:
         menu += ["dispatch"]
       menu += ["flow"] * 2
+      if self.cfg.classes:
+        menu += ["diamond"]
       if ext:
         menu += ["ext"] * 5
       c = self.pick(menu)
@@ -1208,6 +1308,8 @@ class G:
         lines = self.dispatch_stmt(env)
       elif c == "flow":
         lines = self.flow_stmt(env)
+      elif c == "diamond":
+        lines = self.diamond_stmt(env)
       elif c == "mutate":
         lines = self.mutate_stmt(env, "")
       else:
